@@ -48,6 +48,8 @@ package method_evaluator
 //@   witness idx#0 "a = [1]\na.replace"
 
 //@ func (*ti/eval/method_evaluator.addArrayStrategy).evaluate
+//@   # C12: what push / concat / unshift / + grow is the receiver's type object - not the declared method type they looked up
+//@   callsite[C12] AppendArrayVariant a_t == m.evaluatedObjectT
 //@   safederef[C04] base.GlobT
 //@   globalstore[C22] base.GlobT m.parser.LspTargetRow == m.parser.ErrorRow
 //@   safe idx,slice
@@ -55,18 +57,24 @@ package method_evaluator
 //@   witness idx#0 "a = [1]\na + "
 
 //@ func (*ti/eval/method_evaluator.arrayAppendStrategy).evaluate
+//@   # C12: what push / concat / unshift / + grow is the receiver's type object - not the declared method type they looked up
+//@   callsite[C12] AppendArrayVariant a_t == m.evaluatedObjectT
 //@   safederef[C04] base.GlobT
 //@   globalstore[C22] base.GlobT m.parser.LspTargetRow == m.parser.ErrorRow
 //@   safe idx,slice
 //@   inline 2 1
 
 //@ func (*ti/eval/method_evaluator.concatArraystrategy).evaluate
+//@   # C12: what push / concat / unshift / + grow is the receiver's type object - not the declared method type they looked up
+//@   callsite[C12] AppendArrayVariant a_t == m.evaluatedObjectT
 //@   safederef[C04] base.GlobT
 //@   globalstore[C22] base.GlobT m.parser.LspTargetRow == m.parser.ErrorRow
 //@   safe idx,slice
 //@   inline 2 1
 
 //@ func (*ti/eval/method_evaluator.unshiftArraystrategy).evaluate
+//@   # C12: what push / concat / unshift / + grow is the receiver's type object - not the declared method type they looked up
+//@   callsite[C12] AppendArrayVariant a_t == m.evaluatedObjectT
 //@   safederef[C04] base.GlobT
 //@   globalstore[C22] base.GlobT m.parser.LspTargetRow == m.parser.ErrorRow
 //@   safe idx,slice
@@ -232,3 +240,10 @@ package method_evaluator
 //@   loop 0 invariant[C12] returnT == nil || fresh(returnT)
 //@   witness site:call.0#1 "def g(w)\n  z = 2 * w\n  dbtp z\nend\na = [1, \"a\"]\na.each do |x|\n  y = x * 2\nend\n" expect "3:::Union<Integer Float String>"
 //@   witness site:call.0#0 "def g(w)\n  z = 2 * w\n  dbtp z\nend\na = [\"a\", 1]\na.each do |x|\n  y = x * 2\nend\n" expect "3:::Union<Integer Float String>"
+
+// C12: inferring a user method's parameter types from a call never appends to a parameter type
+// that comes from the configuration
+//@ func ti/eval/method_evaluator.propagationForCalledTo
+//@   sitesonly
+//@   inline 2 1
+//@   callsite[C12] AppendVariant !a_t.isBuiltin
